@@ -20,12 +20,15 @@ use zipora::compression::{
 use zipora::entropy::rans::{ParallelX1, Rans64Encoder};
 use zipora::memory::{SecureMemoryPool, SecurePoolConfig};
 
+#[path = "c02_x.rs"]
+mod x;
+
 const HEADER: &str = r#"From ZV.Common Require Import Base Run.
-From ZV.C02 Require Import Model RunCase.
+From ZV.C02 Require Import Model RunCase RunCaseX.
 Open Scope N_scope.
 Definition case_t : Type := N * list N * list N * list N.
 Definition ok (c : case_t) : bool :=
-  let '(op, a, b, expect) := c in eqb_ln (run_case op a b) expect.
+  let '(op, a, b, expect) := c in eqb_ln (run_case_all op a b) expect.
 "#;
 
 struct Ctx {
@@ -42,7 +45,12 @@ impl Ctx {
         // one budget per kind of case, so that the large enumerated families do not crowd out the others
         let used = self.per_op.entry(op).or_insert(0);
         // (a rANS table case costs ~0.5 s of coqc: two 256-entry lists and the three normalisation passes)
-        let limit = match op { 0 | 1 => self.coq_budget * 4 / 15, 5 => self.coq_budget * 2 / 15, 4 => self.coq_budget / 12, 2 => self.coq_budget / 25, _ => self.coq_budget / 90 };
+        let limit = match op {
+            0 | 1 => self.coq_budget / 6, 5 => self.coq_budget * 2 / 15, 4 => self.coq_budget / 12, 2 => self.coq_budget / 25,
+            // extension ops: compressor frames (a rANS case normalises a table: ~0.5 s), front-end automata, PA-Zip compress, SIMD LZ77 tokens
+            10 | 11 => self.coq_budget / 60, 12 => self.coq_budget / 100, 13..=17 => self.coq_budget / 40,
+            20..=29 => self.coq_budget / 25, 30..=39 => self.coq_budget / 20, 40..=49 => self.coq_budget / 25,
+            _ => self.coq_budget / 90 };
         if !force && *used >= limit { return; }
         *used += 1;
         let term = format!("({}, {}, {}, {})", op, coq_n_list(a.iter().cloned()), coq_n_list(b.iter().cloned()), coq_n_list(expect.iter().cloned()));
@@ -335,7 +343,9 @@ fn needs_training(a: Algorithm) -> bool {
 fn factory_case(cx: &mut Ctx, ai: usize, x: &[u8], train: &[u8]) {
     let (alg, name) = ALGS[ai % ALGS.len()];
     let cell = format!("factory/{}", name);
-    cx.sum.cell_status(&cell, "S-only");
+    // the header layouts of the three trained compressors are modelled (coq/C02/ModelComp.v) and tied by x::comp_tie
+    let modelled = matches!(alg, Algorithm::Huffman | Algorithm::Rans | Algorithm::Dictionary | Algorithm::Hybrid);
+    cx.sum.cell_status(&cell, if modelled { "M+S" } else { "S-only" });
     let cj = json!({"cell": "factory", "alg": ai, "data": x, "train": train});
     cx.sum.eval(&cell, &format!("f {} {:?} {:?}", ai, x, train), x.len() >= 2);
     let tr = if needs_training(alg) { Some(train) } else { None };
@@ -354,7 +364,7 @@ fn factory_case(cx: &mut Ctx, ai: usize, x: &[u8], train: &[u8]) {
     // stored tables: a second instance trained on other data must decode Huffman / rANS output
     if matches!(alg, Algorithm::Huffman | Algorithm::Rans) && !x.is_empty() {
         let cell2 = format!("factory/{}/other_instance", name);
-        cx.sum.cell_status(&cell2, "S-only");
+        cx.sum.cell_status(&cell2, "M+S");
         if let Ok(Ok(z)) = guarded(|| c.compress(x)) {
             if let Ok(Ok(c2)) = guarded(|| CompressorFactory::create(alg, Some(TEXT))) {
                 cx.sum.eval(&cell2, &format!("f2 {} {:?} {:?}", ai, x, train), true);
@@ -451,13 +461,13 @@ fn counts(x: &[u8]) -> [u32; 256] { let mut f = [0u32; 256]; for &b in x { f[b a
 const FRONT_ALGS: [Algorithm; 6] = [Algorithm::None, Algorithm::Lz4, Algorithm::Zstd(1), Algorithm::Zstd(6), Algorithm::SimdLz77, Algorithm::Zstd(15)];
 
 /// history: each step optionally switches the algorithm, then compresses and decompresses a payload
-fn adaptive_case(cx: &mut Ctx, steps: &[(u64, Vec<u8>)], aggressive: bool, min_ops: usize) {
+fn adaptive_case(cx: &mut Ctx, steps: &[(u64, Vec<u8>)], aggressive: bool, min_ops: usize, interval: usize) {
     let cell = "adaptive";
-    cx.sum.cell_status(cell, "S-only");
-    let cj = json!({"cell": cell, "steps": steps.iter().map(|(a, d)| json!([a, d])).collect::<Vec<_>>(), "aggressive": aggressive, "min_ops": min_ops});
-    cx.sum.eval(cell, &format!("ad {:?} {} {}", steps, aggressive, min_ops), steps.len() >= 2);
+    cx.sum.cell_status(cell, "M+S");
+    let cj = json!({"cell": cell, "steps": steps.iter().map(|(a, d)| json!([a, d])).collect::<Vec<_>>(), "aggressive": aggressive, "min_ops": min_ops, "interval": interval});
+    cx.sum.eval(cell, &format!("ad {:?} {} {} {}", steps, aggressive, min_ops, interval), steps.len() >= 2);
     let r = guarded(|| {
-        let cfg = AdaptiveConfig { min_operations: min_ops, evaluation_interval: 3, aggressive_learning: aggressive, learning_window: 16, ..Default::default() };
+        let cfg = AdaptiveConfig { min_operations: min_ops, evaluation_interval: interval, aggressive_learning: aggressive, learning_window: 16, ..Default::default() };
         let mut a = match AdaptiveCompressor::new(cfg, PerformanceRequirements::default()) { Ok(a) => a, Err(e) => return Some(format!("new failed: {}", e)) };
         for (i, (sw, d)) in steps.iter().enumerate() {
             if *sw == 7 {
@@ -493,7 +503,7 @@ const MODES: [(CompressionMode, &str); 4] = [(CompressionMode::UltraLowLatency, 
 /// steps: (switch_mode 0=keep else mode index+1, deadline kind 0=mode default 1=already passed 2=an hour, payload)
 fn realtime_case(cx: &mut Ctx, mode: usize, fallback: bool, steps: &[(u64, u64, Vec<u8>)]) {
     let cell = format!("realtime/{}", MODES[mode % 4].1);
-    cx.sum.cell_status(&cell, "S-only");
+    cx.sum.cell_status(&cell, "M+S");
     let cj = json!({"cell": "realtime", "mode": mode, "fallback": fallback, "steps": steps.iter().map(|(a, b, d)| json!([a, b, d])).collect::<Vec<_>>()});
     cx.sum.eval(&cell, &format!("rt {} {} {:?}", mode, fallback, steps), steps.len() >= 2);
     let r = guarded(|| {
@@ -647,7 +657,7 @@ fn pazip_case_inner(cx: &mut Ctx, pi: usize, dict_kind: u64, payloads: &[Vec<u8>
 /// at distance `period`; [2, off, n] a global match dict[off..off+n].  The payload is what the parse describes.
 fn legacy_records_case(cx: &mut Ctx, period: usize, seed: u64, ops: &[Vec<u64>]) {
     let cell = "pazip/legacy_records";
-    cx.sum.cell_status(cell, "S-only");
+    cx.sum.cell_status(cell, "M+S");
     let cj = json!({"cell": cell, "period": period, "seed": seed, "ops": ops});
     cx.sum.eval(cell, &format!("lr {} {} {:?}", period, seed, ops), ops.len() >= 2);
     let mut r = Rng::new(seed ^ 0xC02);
@@ -777,7 +787,7 @@ fn rand_legacy_stream(r: &mut Rng) -> Vec<u8> {
 
 fn simd_lz77_case(cx: &mut Ctx, x: &[u8]) {
     let cell = "simd_lz77/inherent";
-    cx.sum.cell_status(cell, "S-only");
+    cx.sum.cell_status(cell, "M+S");
     let cj = json!({"cell": cell, "data": x});
     cx.sum.eval(cell, &format!("sl {:?}", x), x.len() >= 2);
     let class = if !x.is_empty() { Some("simd_lz77_literals_not_stored") } else { None };
@@ -812,7 +822,7 @@ fn run_one(cx: &mut Ctx, c: &Value) {
         "rans/table" => { let v: Vec<u32> = c["freqs"].as_array().map(|a| a.iter().map(|x| x.as_u64().unwrap_or(0) as u32).collect()).unwrap_or_default(); let mut f = [0u32; 256]; for (i, x) in v.iter().take(256).enumerate() { f[i] = *x; } rans_tie(cx, &f, true) }
         "adaptive" => {
             let steps: Vec<(u64, Vec<u8>)> = c["steps"].as_array().map(|a| a.iter().map(|s| (s[0].as_u64().unwrap_or(0), bytes_of(&s[1]))).collect()).unwrap_or_default();
-            adaptive_case(cx, &steps, c["aggressive"].as_bool().unwrap_or(false), c["min_ops"].as_u64().unwrap_or(50) as usize)
+            adaptive_case(cx, &steps, c["aggressive"].as_bool().unwrap_or(false), c["min_ops"].as_u64().unwrap_or(50) as usize, c["interval"].as_u64().unwrap_or(3) as usize)
         }
         "realtime" => {
             let steps: Vec<(u64, u64, Vec<u8>)> = c["steps"].as_array().map(|a| a.iter().map(|s| (s[0].as_u64().unwrap_or(0), s[1].as_u64().unwrap_or(0), bytes_of(&s[2]))).collect()).unwrap_or_default();
@@ -824,6 +834,25 @@ fn run_one(cx: &mut Ctx, c: &Value) {
         }
         "pazip_big" => pazip_big_case(cx, c["preset"].as_u64().unwrap_or(0) as usize, c["n"].as_u64().unwrap_or(0) as usize, c["seed"].as_u64().unwrap_or(0)),
         "simd_lz77/inherent" => simd_lz77_case(cx, &bytes_of(&c["data"])),
+        "comp_tie" => {
+            let train = if c["train"].is_null() { vec![] } else { bytes_of(&c["train"]) };
+            if !train.is_empty() { x::comp_tie(cx, c["kind"].as_u64().unwrap_or(0), &bytes_of(&c["data"]), &train, true) }
+        }
+        "rt_tie" => {
+            let steps: Vec<(u64, u64, Vec<u8>)> = c["steps"].as_array().map(|a| a.iter().map(|s| (s[0].as_u64().unwrap_or(0), s[1].as_u64().unwrap_or(0), bytes_of(&s[2]))).collect()).unwrap_or_default();
+            x::rt_tie(cx, c["mode"].as_u64().unwrap_or(0) as usize, c["fallback"].as_bool().unwrap_or(true), &steps)
+        }
+        "ad_tie" => {
+            let ops: Vec<(u64, u64, Vec<u8>)> = c["ops"].as_array().map(|a| a.iter().map(|s| (s[0].as_u64().unwrap_or(0), s[1].as_u64().unwrap_or(0), bytes_of(&s[2]))).collect()).unwrap_or_default();
+            x::ad_tie(cx, c["min_ops"].as_u64().unwrap_or(50) as usize, c["interval"].as_u64().unwrap_or(3) as usize, c["aggressive"].as_bool().unwrap_or(false), c["window"].as_u64().unwrap_or(16) as usize, &ops)
+        }
+        "pazip/compress_loop" => {
+            let ops: Vec<Vec<u64>> = c["ops"].as_array().map(|a| a.iter().map(|o| o.as_array().map(|v| v.iter().map(|x| x.as_u64().unwrap_or(0)).collect()).unwrap_or_default()).collect()).unwrap_or_default();
+            x::pazip_sim_case(cx, c["period"].as_u64().unwrap_or(1) as usize, c["seed"].as_u64().unwrap_or(0), c["dict_big"].as_bool().unwrap_or(false), &ops, true)
+        }
+        "simd_tie" => x::simd_tie_bytes(cx, &bytes_of(&c["data"]), true),
+        "big" => x::big_case(cx, c["front"].as_u64().unwrap_or(0), c["sel"].as_u64().unwrap_or(0) as usize, c["kind"].as_u64().unwrap_or(0), c["n"].as_u64().unwrap_or(0) as usize),
+        "realtime_batch" => x::realtime_batch_case(cx, c["mode"].as_u64().unwrap_or(0) as usize, c["fallback"].as_bool().unwrap_or(true), c["item_len"].as_u64().unwrap_or(0) as usize, c["n_big"].as_u64().unwrap_or(0) as usize, c["seed"].as_u64().unwrap_or(0)),
         "pazip/legacy_decode_raw" => legacy_raw(cx, &bytes_of(&c["data"])),
         "pazip/legacy_records" => {
             let ops: Vec<Vec<u64>> = c["ops"].as_array().map(|a| a.iter().map(|o| o.as_array().map(|v| v.iter().map(|x| x.as_u64().unwrap_or(0)).collect()).unwrap_or_default()).collect()).unwrap_or_default();
@@ -837,7 +866,7 @@ pub fn run(args: &Args) {
     quiet_panics();
     let mut cx = Ctx {
         sum: Summary::new("C02", "corpus; PA-Zip match lists: every kind at min/max/min-1/max+1 of each field and at the variable-length thresholds, all ordered pairs of kinds, random lists of length 0..40, random bytes through decode_matches; every Algorithm of the factory x 10 payload families (incompressible, text, runs around 33/34, near and far periods, skewed, all symbols) x 7 training relations (same, unrelated, single byte, subset ...); hybrid selector and rANS table against the model; adaptive and real-time front ends as operation histories with algorithm / mode switches and passed / distant deadlines; PA-Zip compressor presets x dictionary builders x payload sequences; a case is non-trivial when the payload has >= 2 bytes or the list >= 2 matches; distinct = distinct canonical case text"),
-        shards: CoqShards::new(HEADER, 300),
+        shards: CoqShards::new(HEADER, 150),
         coq_budget: if args.thorough { 6000 } else { 1500 },
         per_op: std::collections::HashMap::new(),
         rng: Rng::new(args.seed),
@@ -938,6 +967,8 @@ pub fn run(args: &Args) {
         cx.rng = r;
         hybrid_tie(&mut cx, &x, &t, false);
     }
+    // 3b. the headers of the trained compressors against the model (ModelComp.v)
+    x::run_comp_ties(&mut cx, th);
     // 4. factory: every algorithm x families x training relations
     for ai in 0..ALGS.len() {
         for fam in 0..10u64 {
@@ -1008,8 +1039,10 @@ pub fn run(args: &Args) {
         if r.chance(3, 4) { steps[0].0 = *r.pick(&[1u64, 3, 4, 5, 6]); }
         let aggressive = r.chance(1, 2);
         let min_ops = *r.pick(&[1usize, 5, 50]);
+        // evaluation_interval: mostly 3 (so that evaluations happen within short histories), also the edges 0, 1 and a large one
+        let interval = *r.pick(&[3usize, 3, 3, 0, 1, 1000]);
         cx.rng = r;
-        adaptive_case(&mut cx, &steps, aggressive, min_ops);
+        adaptive_case(&mut cx, &steps, aggressive, min_ops, interval);
     }
     for k in 0..(if th { 800 } else { 120 }) {
         let mut r = cx.rng.clone();
@@ -1022,6 +1055,10 @@ pub fn run(args: &Args) {
         cx.rng = r;
         realtime_case(&mut cx, k % 4, fb, &steps);
     }
+    // 5a. the front ends against the decision automata (ModelFront.v)
+    x::run_front_ties(&mut cx, th);
+    // 5b. families added after seeded-change round 2 (large compressible payloads, batches that overrun)
+    x::run_extension_oracle(&mut cx, th);
     // 6. PA-Zip compressor presets and SIMD LZ77
     for k in 0..(if th { 900 } else { 90 }) {
         let mut r = cx.rng.clone();
@@ -1074,6 +1111,7 @@ pub fn run(args: &Args) {
             legacy_records_case(&mut cx, p, seed, &ops);
         }
     }
+    x::run_pazip_sim(&mut cx, th);
     for _ in 0..(if th { 1500 } else { 150 }) {
         let mut r = cx.rng.clone();
         let st = rand_legacy_stream(&mut r);
@@ -1105,6 +1143,7 @@ pub fn run(args: &Args) {
         cx.rng = r;
         simd_lz77_case(&mut cx, &x);
     }
+    x::run_simd_ties(&mut cx, th);
     cx.sum.dist_max("coq_cases", cx.shards.len() as u64);
     let sh = cx.shards.write(&args.out);
     cx.sum.write(&args.out, sh);
